@@ -280,6 +280,75 @@ func runPair(ci interface{}, s *vkit.Stats) error {
 			return fmt.Errorf("In.Eval(y) changed from %v to %v (%v) on re-evaluation; %s", ri, r, err, desc())
 		}
 	}
+	// the same expression object evaluated on inputs that share storage with an earlier input but differ in value:
+	// a prefix of the same slice, the same pointer/map/slice after its contents changed. Each answer must be the one a
+	// freshly built expression gives for that input.
+	fresh := func(in reflect.Value) (bool, error) {
+		e, err := mkEquals(pattern(x, c.NilPat), t)
+		if err != nil {
+			return false, err
+		}
+		return eval(e, t, in)
+	}
+	var series []reflect.Value
+	switch y.Kind() {
+	case reflect.Slice:
+		if y.Len() >= 1 {
+			series = append(series, y.Slice(0, y.Len()-1), y)
+			if y.Cap() > y.Len() {
+				series = append(series, y.Slice(0, y.Len()+1))
+			}
+		}
+	}
+	for i, in := range series {
+		in2 := reflect.New(t).Elem()
+		in2.Set(in)
+		got, err := eval(ex, t, in2)
+		want, ferr := fresh(in2)
+		if err != nil || ferr != nil || got != want {
+			return fmt.Errorf("Equals(x) evaluated on input %d of a series sharing one backing array (%s) answers %v (%v); a fresh Equals(x) answers %v (%v); %s", i, vkit.Describe(in2), got, err, want, ferr, desc())
+		}
+		s.Class("aliased-input-series")
+	}
+	if (y.Kind() == reflect.Ptr || y.Kind() == reflect.Map || y.Kind() == reflect.Slice) && !y.IsNil() && c.Rel != "same" {
+		// mutate what y refers to, in place, and evaluate again through the same expression objects
+		before, _ := eval(ex, t, y)
+		mutated := false
+		switch y.Kind() {
+		case reflect.Ptr:
+			if pv, ok := vkit.Perturb(y.Elem(), c.X+c.Y+1); ok && y.Elem().CanSet() {
+				y.Elem().Set(pv)
+				mutated = true
+			}
+		case reflect.Slice:
+			if y.Len() > 0 {
+				if pv, ok := vkit.Perturb(y.Index(0), c.X+c.Y+1); ok {
+					y.Index(0).Set(pv)
+					mutated = true
+				}
+			}
+		case reflect.Map:
+			if y.Type().Key().Kind() == reflect.String {
+				y.SetMapIndex(reflect.ValueOf("added-by-the-harness").Convert(y.Type().Key()), reflect.Zero(y.Type().Elem()))
+				mutated = true
+			}
+		}
+		if mutated {
+			got, err := eval(ex, t, y)
+			want, ferr := fresh(y)
+			if err != nil || ferr != nil || got != want {
+				return fmt.Errorf("after the argument's referent was changed in place, the already evaluated Equals(x) answers %v (%v) (it answered %v before), a fresh Equals(x) answers %v (%v); y is now %s; %s", got, err, before, want, ferr, vkit.Describe(y), desc())
+			}
+			ri2, err := eval(in, t, y)
+			fin := arg.In(pats...)
+			_ = fin.Resolve([]reflect.Type{t}, false)
+			wi, _ := eval(fin, t, y)
+			if err != nil || ri2 != wi {
+				return fmt.Errorf("after the argument's referent was changed in place, the already evaluated In(...) answers %v (%v), a fresh In(...) answers %v; %s", ri2, err, wi, desc())
+			}
+			s.Class("mutated-referent-re-evaluated")
+		}
+	}
 	s.Sample(map[string]interface{}{"type": t.String(), "x": vkit.Describe(x), "y": vkit.Describe(y), "rel": c.Rel, "equals": r1, "judged": judged})
 	return nil
 }
